@@ -136,14 +136,22 @@ def run_replays(specs, timeout=120):
         idx = [i for i, s in enumerate(specs) if s.get('mode', 'normal') == mode]
         payload = json.dumps([specs[i] for i in idx])
         cmd = [PY] + (['-O'] if mode == '-O' else []) + [os.path.join(ROOT, 'vsym', 'replay_main.py'), '--batch', '-']
-        try:
-            p = subprocess.run(cmd, input=payload, capture_output=True, text=True, timeout=timeout, cwd=ROOT,
-                               env=dict(os.environ, PYTHONPATH=ROOT))
-            res = json.loads(p.stdout.strip().splitlines()[-1]) if p.stdout.strip() else None
-        except (subprocess.TimeoutExpired, ValueError, IndexError):
-            res = None
+        res = None
+        err = ''
+        for attempt in (1, 2):          # a loaded machine must not turn a violation into "did not reproduce": retry once, generously
+            try:
+                p = subprocess.run(cmd, input=payload, capture_output=True, text=True, timeout=timeout * attempt + 20 * len(idx), cwd=ROOT,
+                                   env=dict(os.environ, PYTHONPATH=ROOT))
+                res = json.loads(p.stdout.strip().splitlines()[-1]) if p.stdout.strip() else None
+                err = p.stderr[-500:]
+            except subprocess.TimeoutExpired:
+                err = 'timeout'
+            except (ValueError, IndexError):
+                err = 'unparsable replay output'
+            if res is not None:
+                break
         if res is None:
-            res = [{'violated': None, 'observed': 'replay process failed: %s' % (p.stderr[-500:] if 'p' in dir() else 'timeout'), 'key': None}] * len(idx)
+            res = [{'violated': None, 'observed': 'replay process failed: %s' % err, 'key': None}] * len(idx)
         for i, r in zip(idx, res):
             results.append((i, r))
     results.sort()
